@@ -165,6 +165,40 @@ fn bernstein_t(n_samples: f64, p: f64, l: f64) -> f64 {
     a + (a * a + 2.0 * l * n_samples * p * (1.0 - p)).sqrt()
 }
 
+/// number of steps per campaign whose window tuples are kept for the repeat statistic (bounds memory)
+const COLLISION_SAMPLES: u64 = 2_000_000;
+
+/// windows (suffix?, k) of processed positions whose repeat statistic has power: k <= 10 (6 bits per
+/// instruction index fit a u64), K = n!/(n-k)! large enough that a uniform shuffle is expected to repeat
+/// fewer than 8 times in `samples` steps
+fn collision_windows(n: usize, samples: u64) -> Vec<(bool, usize)> {
+    let mut v = vec![];
+    let ns = samples as f64;
+    for k in 3..=n.min(10) {
+        let kk: f64 = (0..k).map(|j| (n - j) as f64).product();
+        if ns * (ns - 1.0) / (2.0 * kk) < 8.0 {
+            v.push((true, k));
+            if k < n {
+                v.push((false, k));
+            }
+        }
+    }
+    v
+}
+
+/// smallest d > mu with exp(-mu) (e mu / d)^d <= a
+fn repeat_limit(mu: f64, a: f64) -> u64 {
+    let mut d = (mu.ceil() as u64).max(1) + 1;
+    loop {
+        let df = d as f64;
+        let log_p = -mu + df * (1.0 + (mu.max(1e-300) / df).ln());
+        if log_p <= a.ln() {
+            return d;
+        }
+        d += 1;
+    }
+}
+
 pub fn outcome(_id: &'static str, c: &ShuffleCase) -> Outcome {
     match guarded("C15", || run(c)) {
         Ok((classes, nontrivial, res)) => Outcome { nontrivial: res.is_ok() && nontrivial, classes, result: res.err() },
@@ -215,7 +249,12 @@ fn run(c: &ShuffleCase) -> (Vec<(&'static str, u64)>, bool, Result<(), Failure>)
             let mut s = *seed ^ ((n as u64) << 32) ^ ((*market as u64) << 48) ^ ((*stream as u64) << 49) ^ ((!*trading as u64) << 50);
             let mut stream_rng = Xoroshiro128StarStar::seed_from_u64(splitmix(&mut s));
             let mut mixed_steps = 0u64;
-            for _ in 0..*steps {
+            // repeat (collision) statistic: for windows of the first / last k processed positions the tuple of
+            // instructions processed there is recorded for the first COLLISION_SAMPLES steps
+            let windows: Vec<(bool, usize)> = collision_windows(n, (*steps).min(COLLISION_SAMPLES));
+            let mut tuples: Vec<Vec<u64>> = windows.iter().map(|_| Vec::with_capacity((*steps).min(COLLISION_SAMPLES) as usize)).collect();
+            let mut at = vec![0usize; n];
+            for step_no in 0..*steps {
                 let layout = layout_from(&mut s, n, true);
                 if layout.iter().any(|k| *k != layout[0]) {
                     mixed_steps += 1;
@@ -234,6 +273,19 @@ fn run(c: &ShuffleCase) -> (Vec<(&'static str, u64)>, bool, Result<(), Failure>)
                 if small {
                     perm_counts[perm_index(&pos)] += 1;
                 }
+                if step_no < COLLISION_SAMPLES && !windows.is_empty() {
+                    for i in 0..n {
+                        at[pos[i]] = i;
+                    }
+                    for (w, (suffix, k)) in windows.iter().enumerate() {
+                        let mut code = 0u64;
+                        for j in 0..*k {
+                            let q = if *suffix { n - 1 - j } else { j };
+                            code = (code << 6) | at[q] as u64;
+                        }
+                        tuples[w].push(code);
+                    }
+                }
                 for i in 0..n {
                     cell[i * n + pos[i]] += 1;
                     for j in (i + 1)..n {
@@ -246,7 +298,7 @@ fn run(c: &ShuffleCase) -> (Vec<(&'static str, u64)>, bool, Result<(), Failure>)
             // exact concentration bound with a union bound over all cells of all cases of the run
             let k_cells = (if small { nf } else { 0 } + n * n + n * (n - 1) / 2) as f64;
             let alpha = 10f64.powi(-(*alpha_exp as i32)) / (*cases_in_run as f64);
-            let l = (2.0 * k_cells / alpha).ln();
+            let l = (2.0 * k_cells / (alpha / 2.0)).ln();
             let nn = *steps as f64;
             let mut worst = 0.0f64;
             let mut bad: Option<String> = None;
@@ -274,12 +326,45 @@ fn run(c: &ShuffleCase) -> (Vec<(&'static str, u64)>, bool, Result<(), Failure>)
                     test(format!("instruction {} processed before instruction {} (batch of {})", i, j, n), pair[i * n + j], 0.5);
                 }
             }
+            // repeats: under a uniform shuffle the tuple of instructions at k fixed positions takes each of
+            // K = n!/(n-k)! values with equal probability, so the j-th step repeats an earlier step's tuple with
+            // probability <= (j-1)/K whatever happened before; the number D of such steps is stochastically
+            // dominated by a sum of independent Bernoulli variables with mean mu = N(N-1)/(2K), hence
+            // P(D >= d) <= exp(-mu) (e mu / d)^d for d > mu (Chernoff). The alpha of the campaign is split evenly
+            // between the cell tests above and the window tests.
+            let mut windows_tested = 0u64;
+            let mut repeats_seen = 0u64;
+            for (w, (suffix, k)) in windows.iter().enumerate() {
+                let v = &mut tuples[w];
+                let ns = v.len() as f64;
+                v.sort_unstable();
+                let mut d = 0u64;
+                for i in 1..v.len() {
+                    if v[i] == v[i - 1] {
+                        d += 1;
+                    }
+                }
+                let kk: f64 = (0..*k).map(|j| (n - j) as f64).product();
+                let mu = ns * (ns - 1.0) / (2.0 * kk);
+                let a_w = alpha / (2.0 * windows.len() as f64);
+                let limit = repeat_limit(mu, a_w);
+                windows_tested += 1;
+                repeats_seen += d;
+                if d >= limit && bad.is_none() {
+                    bad = Some(format!(
+                        "{} of the first {} steps repeated an earlier step's processing order at the {} {} positions of a batch of {} (K = {:.3e} equally likely outcomes, expected repeats {:.3}, a uniform shuffle gives >= {} with probability < {:e})",
+                        d, ns, if *suffix { "last" } else { "first" }, k, n, kk, mu, limit, a_w
+                    ));
+                }
+            }
             let distinct = perm_counts.iter().filter(|c| **c > 0).count() as u64;
             let classes = vec![
                 ("uniformity_campaigns", 1u64),
                 ("seeded_steps", *steps),
                 ("steps_with_mixed_instruction_kinds", mixed_steps),
                 ("cells_tested", k_cells as u64),
+                ("repeat_windows_tested", windows_tested),
+                ("repeats_observed_in_windows", repeats_seen),
                 ("distinct_permutations_observed_n_le_6", distinct),
                 ("sum_over_campaigns_of_worst_deviation_in_permille_of_bound", (worst * 1000.0) as u64),
             ];
@@ -303,7 +388,7 @@ pub fn parts(tier: Tier) -> (Vec<Part<Case>>, String) {
     // particular size only must not fall between the sizes of the main grid
     let all_sizes: Vec<usize> = (2..=64usize).rev().collect();
     let n_all = all_sizes.len();
-    let steps_all = (steps / 2).max(200_000);
+    let steps_all: u64 = crate::engine::scaled(tier.pick(800_000, 6_000_000));
     let total = (n_on + n_off + n_all) as u64;
     let uniform = Part {
         name: "uniformity-campaigns".to_string(),
@@ -325,7 +410,7 @@ pub fn parts(tier: Tier) -> (Vec<Part<Case>>, String) {
                     Some(Case::Shuffle(ShuffleCase::Uniform { n: all_sizes[j], market: false, stream: false, steps: steps_all, seed: seed ^ 0xA11, alpha_exp: 9, cases_in_run: total as u32, trading: true }))
                 }
             }),
-            description: format!("one campaign of {} seeded steps for each batch size in {:?} x environment in {{Env, MarketEnv<2>}} x generator in {{freshly seeded per step, one continuing stream}} with trading enabled, plus batch sizes {:?} x both environments during a no-trading period, plus one campaign of {} steps for EVERY batch size 2..=64 (Env, fresh seed per step)", steps, SIZES, OFF_SIZES, steps_all),
+            description: format!("one campaign of {} seeded steps for each batch size in {:?} x environment in {{Env, MarketEnv<2>}} x generator in {{freshly seeded per step, one continuing stream}} with trading enabled, plus batch sizes {:?} x both environments during a no-trading period, plus one campaign of {} steps for EVERY batch size 2..=64 (Env, fresh seed per step); repeat statistic over position windows in every campaign", steps, SIZES, OFF_SIZES, steps_all),
         },
     };
     let det = Part {
@@ -341,6 +426,6 @@ pub fn parts(tier: Tier) -> (Vec<Part<Case>>, String) {
     };
     (
         vec![det, uniform],
-        "Two kinds of case. (1) determinism / content independence: one generator state, one batch size, two generated batches of different content and kind layout (new asks, new bids, cancels of resting orders, crossing re-prices, cancels of an order placed earlier in the same batch) on fresh environments: the map submission index -> processed position must be identical for both batches wherever both reveal it (a same-batch cancel processed before its placement leaves no timestamp) and for a repeated run (non-trivial: batch with >= 2 instruction kinds). (2) uniformity campaign: for one (batch size, Env or MarketEnv<2>, generator freshly seeded per step or one continuing stream) the processed positions of N seeded steps are recovered from arrival / end timestamps and the count of each of the n! permutations (n <= 6), each (instruction, position) cell and each ordered pair must lie within the Bernstein deviation for alpha = 1e-9 divided by the number of campaigns, with a union bound over all cells (non-trivial: campaign with mixed instruction kinds). Every step also checks that the positions are a bijection of 0..n.".to_string(),
+        "Two kinds of case. (1) determinism / content independence: one generator state, one batch size, two generated batches of different content and kind layout (new asks, new bids, cancels of resting orders, crossing re-prices, cancels of an order placed earlier in the same batch) on fresh environments: the map submission index -> processed position must be identical for both batches wherever both reveal it (a same-batch cancel processed before its placement leaves no timestamp) and for a repeated run (non-trivial: batch with >= 2 instruction kinds). (2) uniformity campaign: for one (batch size, Env or MarketEnv<2>, generator freshly seeded per step or one continuing stream) the processed positions of N seeded steps are recovered from arrival / end timestamps and the count of each of the n! permutations (n <= 6), each (instruction, position) cell and each ordered pair must lie within the Bernstein deviation for alpha = 1e-9 divided by the number of campaigns, with a union bound over all cells; in addition, for windows of the first / last k = 3..10 processed positions whose number of outcomes K = n!/(n-k)! is large, the number of steps that repeat an earlier step's tuple of instructions at those positions must stay below an exact Chernoff limit (a shuffle that derives several swap indices from one generator word has too few distinct outcomes in such a window although every position and pair table is flat); half of each campaign's alpha goes to the cell tests and half to the window tests (non-trivial: campaign with mixed instruction kinds). Every step also checks that the positions are a bijection of 0..n.".to_string(),
     )
 }
